@@ -104,7 +104,14 @@ def run(ctx):
     for n in ([2, 3, 4, 5] if quick else [2, 3, 4, 5, 6]):
         for vt in ('center', 'direct', 'regular'):
             for tr in sorted({1, 2, n}):
-                if n == 6 and vt == 'regular' and tr != n:
+                if n == 6 and vt == 'regular':
+                    # every Prim order of every regular vine on six nodes is tens of millions of states (measured: 23.6 million after
+                    # 50 minutes on a loaded machine, the queue still growing): random walks instead of the full graph
+                    if tr == n:
+                        r = T.run('Vine', MC_CFG % (n, vt, tr, ''), workers=4, simulate='num=3000', depth=200, seed=ctx.seed + 66, timeout=1500)
+                        ctx.note_tlc('Vine.simulate N=6 regular t=6', r)
+                        if r.violated:
+                            raise T.TlcError('Vine N=6 regular (simulation) reports %s' % r.violated)
                     continue
                 ctx.tlc('Vine.mc N=%d %s t=%d' % (n, vt, tr), 'Vine', MC_CFG % (n, vt, tr, ''), timeout=4000)
     # (b) drivers
